@@ -87,10 +87,13 @@ def main():
             meta["suite_ok"], meta["suite_with_change"] = prev["suite_ok"], prev.get("suite_with_change")
             meta["confirmed"] = meta["demo_with_change_exit"] != 0 and d0.returncode == 0 and prev["suite_ok"]
         open(os.path.join(out, "patch.diff"), "w").write(newpatch)
-        shutil.copy(os.path.join(sdir, "demo.py"), out)
+        same = os.path.abspath(sdir) == os.path.abspath(out)
+        if not same:
+            shutil.copy(os.path.join(sdir, "demo.py"), out)
         notes = os.path.join(sdir, "notes.md")
         if os.path.exists(notes):
-            shutil.copy(notes, out)
+            if not same:
+                shutil.copy(notes, out)
             meta["needs"] = open(notes).read()[:1500]
         meta["ran"] = f"tools/seedcheck.py {sdir} {sid} {prop} {checks} --tier {tier}"
         json.dump(meta, open(os.path.join(out, "meta.json"), "w"), indent=1)
